@@ -11,6 +11,8 @@ import (
 	"net/url"
 	"strings"
 	"sync"
+	"sync/atomic"
+	"time"
 
 	jose "github.com/go-jose/go-jose/v4"
 
@@ -63,6 +65,8 @@ type sharedSet struct {
 	verifier     *rp.IDTokenVerifier
 }
 
+const raceFloodBytes = 2 << 20
+
 type devEntry struct {
 	code, client, issuer string
 }
@@ -77,6 +81,7 @@ type round struct {
 	w        watch
 	pre      snapshot // values of objects registered after the round's first snapshot, taken at registration
 
+	stop      atomic.Bool // set when the race log floods: the rest of the round adds nothing but reports
 	mu        sync.Mutex
 	approved  []devEntry
 	pending   []devEntry
@@ -718,6 +723,9 @@ func (w *worker) cliOp(kind string, set *sharedSet) (class string) {
 func (w *worker) run(n int) int {
 	rd := w.rd
 	for i := 0; i < n; i++ {
+		if rd.stop.Load() {
+			return 0
+		}
 		var kind, where, class string
 		if x := w.r.IntN(40); x == 0 {
 			kind = newKinds[w.r.IntN(len(newKinds))]
@@ -800,6 +808,28 @@ func runRound(run *ev.Run, r int) {
 	rd.deviceBursts(run.N(12, 40), 8)
 	before = append(before, rd.pre...)
 
+	// Flood guard: on a tree with a hot race (e.g. a field of a shared HTTP client written by every logout and
+	// read by every request) the detector writes thousands of reports, each costing a symbolised stack. Once
+	// the log has grown by raceFloodBytes during this round the goroutines stop: the reports at hand decide the
+	// verdict, the remaining operations would only repeat them. A clean tree never gets near the limit.
+	logStart := raceLogSize()
+	guardDone := make(chan struct{})
+	go func() {
+		t := time.NewTicker(100 * time.Millisecond)
+		defer t.Stop()
+		for {
+			select {
+			case <-guardDone:
+				return
+			case <-t.C:
+				if raceLogSize()-logStart > raceFloodBytes {
+					rd.stop.Store(true)
+					return
+				}
+			}
+		}
+	}()
+
 	var wg sync.WaitGroup
 	per := rd.cfg.Ops / rd.cfg.Workers
 	for wi := 0; wi < rd.cfg.Workers; wi++ {
@@ -819,6 +849,12 @@ func runRound(run *ev.Run, r int) {
 		}(wi)
 	}
 	wg.Wait()
+	close(guardDone)
+	if rd.stop.Load() {
+		run.Count("rounds", "cut short by the race-report flood guard")
+	} else {
+		run.Count("rounds", "complete")
+	}
 
 	after := append(globals(), rd.w.snap()...)
 	for _, ch := range diff(before, after) {
